@@ -1,4 +1,6 @@
 """spec -> files -> gaddlemaps objects, through public constructors only."""
+import os
+
 import numpy as np
 
 from . import env, indep
@@ -52,7 +54,10 @@ def residues_from_spec(spec, coords=None, resids=None):
 
 
 def build_top(spec):
-    return MoleculeTop(write_spec_itp(spec))
+    # environment style same_path: every topology of the case is written to, and loaded from, one and the same path
+    # string (a file overwritten between loads); a MoleculeTop is complete once constructed
+    path = os.path.join(env.proc_tmp(), "top.itp") if ENVIRON["same_path"] else None
+    return MoleculeTop(write_spec_itp(spec, path))
 
 
 def build_molecule(spec, top=None, coords=None, resids=None):
@@ -130,17 +135,69 @@ def _styled_call(fn, args, kwargs):
     return fn(*args, **kwargs)
 
 
+# ---- environment styles: process-wide settings a user's script may legitimately have made before calling the
+# library.  Chosen per case from its digest (runner._guarded), so a replay reproduces them.
+#   printopts    numpy print options with a small threshold / few digits (text forms of arrays get abbreviated)
+#   warn_error   warnings raise (python -W error): the warnings the library issues on purpose and numpy's
+#                floating-point warnings are exempted; a warning that escapes from a call is no verdict about
+#                the property (Discard, counted in the evidence) - what this style exposes is library code that
+#                swallows the raised warning and goes on with something else
+#   same_path    build_top() re-uses one path string for every topology file of the case
+ENVIRON = {"printopts": False, "warn_error": False, "same_path": False}
+_DELIBERATE_WARNINGS = [
+    r".*more than 5 character", r"Changing the content of an itp line", r".*modifier for open mode",
+    r"Closing an empty file", r"Repeated topology", r".*backend", r".*[Cc]ompiled",
+    r".*invalid value encountered", r".*divide by zero", r".*overflow encountered", r".*underflow encountered",
+    r"Mean of empty slice", r"Degrees of freedom", r".*unclosed file", r".*Casting complex",
+]
+
+
+def set_environ(bits):
+    ENVIRON["printopts"] = (bits & 3) == 3
+    ENVIRON["warn_error"] = (bits & 12) == 12
+    ENVIRON["same_path"] = (bits & 48) == 48
+
+
+class _EnvStyle(object):
+    def __enter__(self):
+        self._w = None
+        self._p = None
+        if ENVIRON["printopts"]:
+            import numpy as np
+            self._p = np.get_printoptions()
+            np.set_printoptions(threshold=4, edgeitems=1, precision=2, suppress=True)
+        if ENVIRON["warn_error"]:
+            import warnings
+            self._w = warnings.catch_warnings()
+            self._w.__enter__()
+            warnings.simplefilter("error")
+            for msg in _DELIBERATE_WARNINGS:
+                warnings.filterwarnings("ignore", message=msg)
+            warnings.filterwarnings("ignore", category=ResourceWarning)
+        return self
+
+    def __exit__(self, *exc):
+        if self._w is not None:
+            self._w.__exit__(*exc)
+        if self._p is not None:
+            import numpy as np
+            np.set_printoptions(**self._p)
+        return False
+
+
 def lib(clause, fn, *args, **kwargs):
     """Call library code on an input inside the stated domain: an exception is a
     violation of `clause` (never a harness error)."""
     try:
-        with env.quiet():
+        with env.quiet(), _EnvStyle():
             return _styled_call(fn, args, kwargs)
     except (PropertyViolation, Discard):
         raise
     except BaseException as exc:   # noqa: BLE001 - recursion errors etc. included
         if isinstance(exc, (KeyboardInterrupt, SystemExit, MemoryError)):
             raise
+        if isinstance(exc, Warning) and ENVIRON["warn_error"]:
+            raise Discard("warning-as-error")
         import traceback
         tb = traceback.extract_tb(exc.__traceback__)
         where = ""
